@@ -113,11 +113,21 @@ impl BlkDev {
             self.errors.push(m);
             None
         };
-        if rd.is_empty() || rd[0].len != 16 {
-            return err(format!("request chain {:?}: first element must be the 16-byte device-readable header", c.elems));
+        // Framing-agnostic (VirtIO 1.2 §2.7.4.2): the request is the concatenation of the
+        // device-readable parts (16-byte header, then the data of a write) followed by the
+        // concatenation of the device-writable parts (the data of a read, then one status byte).
+        let rd_len: usize = rd.iter().map(|e| e.len as usize).sum();
+        let wr_len: usize = wr.iter().map(|e| e.len as usize).sum();
+        if rd_len < 16 {
+            return err(format!("request chain {:?}: must start with the 16-byte device-readable header", c.elems));
         }
-        if wr.is_empty() || wr.last().unwrap().len != 1 {
-            return err(format!("request chain {:?}: last element must be the 1-byte device-writable status", c.elems));
+        if wr_len < 1 {
+            return err(format!("request chain {:?}: must end with the 1-byte device-writable status", c.elems));
+        }
+        if let Some(i) = c.elems.iter().position(|e| e.write) {
+            if c.elems[i..].iter().any(|e| !e.write) {
+                return err(format!("request chain {:?}: device-readable part after a device-writable one", c.elems));
+            }
         }
         let all = qs.read(w, 0, c);
         if all.len() < 16 {
@@ -130,7 +140,7 @@ impl BlkDev {
             return err(format!("request header reserved field = {:#x}", reserved));
         }
         let data_in = all[16..].to_vec();
-        let data_out_len: usize = wr[..wr.len() - 1].iter().map(|e| e.len as usize).sum();
+        let data_out_len: usize = wr_len - 1;
         let p = Parsed { ty, sector, data_in, data_out_len };
         let shape_ok = match ty {
             0 => p.data_in.is_empty() && p.data_out_len > 0 && p.data_out_len % 512 == 0,
@@ -193,8 +203,8 @@ impl BlkDev {
         // response = data (if any, else leave the data part untouched) + status byte at the end
         if p.data_out_len > 0 && out.is_empty() {
             // error before data transfer: only the status byte is written
-            let st_elem = c.elems.iter().filter(|e| e.write).last().unwrap();
-            if let Err(m) = w.hal.dev_write(st_elem.addr, &[status]) {
+            let st_elem = c.elems.iter().filter(|e| e.write && e.len > 0).last().unwrap();
+            if let Err(m) = w.hal.dev_write(st_elem.addr + st_elem.len as u64 - 1, &[status]) {
                 w.fault("devmem", m);
             }
             qs.complete_len(w, 0, c, 1);
@@ -446,7 +456,15 @@ impl WithT for Run<'_> {
                     let mut buf: Box<[u8]> =
                         if write { (0..n * SECTOR_SIZE).map(|k| (k as u8).wrapping_mul(17) ^ seed).collect() } else { vec![0xEEu8; n * SECTOR_SIZE].into_boxed_slice() };
                     let orig = buf.to_vec();
-                    let full = (nb.len() + 1) * per_req > 16;
+                    // How many descriptors a request takes is the implementation's choice (one with
+                    // an indirect table, up to three without; it may also decline to use a table it
+                    // negotiated). The property only says a queue-full of requests can be
+                    // outstanding: it must fit while three more descriptors are certainly free, and
+                    // cannot fit once every descriptor carries a request. In between, both answers
+                    // are right; what the queue itself must answer is C03's business.
+                    let _ = per_req;
+                    let must_fit = (nb.len() + 1) * 3 <= 16;
+                    let cannot_fit = nb.len() >= 16;
                     let seen0 = dev.with(|d| d.h.seen.len());
                     let r = g!(what, unsafe {
                         if write {
@@ -457,7 +475,7 @@ impl WithT for Run<'_> {
                     });
                     match r {
                         Ok(token) => {
-                            if full {
+                            if cannot_fit {
                                 return Err(format!("{}: accepted although the queue is full ({} outstanding)", what, nb.len()));
                             }
                             // give a late / polling device the turns it needs to pick the request up
@@ -472,7 +490,7 @@ impl WithT for Run<'_> {
                             order += 1;
                             nb.push(NbReq { token, write, sector, req, buf, orig, resp, seen_index: seen0, order });
                         }
-                        Err(Error::QueueFull) if full => {}
+                        Err(Error::QueueFull) if !must_fit => {}
                         Err(e) => return Err(format!("{}: returned {:?} with {} requests outstanding", what, e, nb.len())),
                     }
                     sig.add(5 + write as u64).add(nb.len() as u64);
